@@ -321,4 +321,23 @@ theorem shrink_entry_source : Rapid.Generated.body_shrink =
      "} else {", "defer func() { _ = f.Close() }()", "if err = visWriteHTML(f, tb.Name(), s.visBits); err != nil {",
      "tb.Logf(\"failed to write debugvis file %v: %v\", name, err)", "}", "}", "}", "return buf, err", "}"] := by rfl
 
+/-- `panicToError` re-read from /repo statement by statement: the traceback of a failure is made of *every* frame between the panic and `checkOnce` — function and line, inlined functions included (S184 dropped the frames without a `Func`) —: it is what `accept` and `checkTB` compare as "the same failure site" (the model's `site`) -/
+theorem panicToError_body_source : Rapid.Generated.body_panicToError =
+    ["{", "if p == nil {", "return nil", "}", "callers := make([]uintptr, tracebackLen)",
+     "callers = callers[:runtime.Callers(skip, callers)]", "frames := runtime.CallersFrames(callers)",
+     "b := &strings.Builder{}", "f, more, skipSpecial := runtime.Frame{}, true, true",
+     "for more && !strings.HasSuffix(f.Function, tracebackStop) {", "f, more = frames.Next()",
+     "if skipSpecial && (tracebackBlacklist[f.Function] || strings.HasPrefix(f.Function, runtimePrefix)) {",
+     "continue", "}", "skipSpecial = false",
+     "_, err := fmt.Fprintf(b, \"    %s:%d in %s\\n\", f.File, f.Line, f.Function)", "assert(err == nil)", "}",
+     "return &testError{", "data:\t\tp,", "traceback:\tb.String(),", "}", "}"] := by rfl
+
+/-- `traceback` re-read from /repo statement by statement -/
+theorem traceback_body_source : Rapid.Generated.body_traceback =
+    ["{", "if err == nil {", "return \"    <no error>\\n\"", "}", "return err.traceback", "}"] := by rfl
+
+/-- `sameError` re-read from /repo statement by statement: same message and same traceback -/
+theorem sameError_body_source : Rapid.Generated.body_sameError =
+    ["{", "return errorString(err1) == errorString(err2) && traceback(err1) == traceback(err2)", "}"] := by rfl
+
 end Rapid.C05
